@@ -7,7 +7,8 @@
    grammar. *)
 From JM Require Import Model.Base Model.Num Model.Utf8 Model.Value Model.JsonText Model.Lexer Model.Parser.
 From JM Require Import Spec.Grammar.
-From JM Require Import gen.Tables Proofs.TablesOk Proofs.ValueFacts Proofs.ParserTotal Proofs.ParserShape Proofs.ParserComplete.
+From JM Require Import gen.Tables Proofs.TablesOk Proofs.ValueFacts Proofs.ParserTotal Proofs.ParserShape Proofs.ParserComplete
+     Proofs.LexerTotal Proofs.CompileTotal.
 From Coq Require Import ZifyBool.
 
 Lemma Forall2_of_nth {A B} (R : A -> B -> Prop) : forall (a : list A) (b : list B), length a = length b ->
@@ -1055,5 +1056,25 @@ Proof.
 Qed.
 
 End Tokens.
+
+(* ---- from bytes: Compile accepts a byte string exactly when the lexer turns it
+   into a token list that spells a well-precedenced tree; the AST is that tree's ---- *)
+Lemma tokenize_wf (s : bytes) ts : tokenize s = Ok ts -> wf_tokens ts.
+Proof.
+  intros H. pose proof (tokenize_total s) as T. rewrite H in T. destruct T as [acc [-> Hacc]].
+  apply lexed_tokens_wf. exact Hacc.
+Qed.
+
+Theorem compile_exact (s : bytes) n :
+  parse s = Ok n <->
+  exists ts e, tokenize s = Ok ts /\ n = compile e /\ wp e = true /\ npos e = true /\
+               Spell ts 0 (render e ++ [tk tEOF []]).
+Proof.
+  unfold parse. split.
+  - intros H. apply bind_ok_inv in H as [ts [Ht H]]. exists ts.
+    destruct (parse_tokens_sound_spell ts n H) as [e He]. exists e. split; [exact Ht | exact He].
+  - intros [ts [e [Ht He]]]. rewrite Ht. cbn [bind]. apply (parse_tokens_exact_spell ts (tokenize_wf s ts Ht)). exists e. exact He.
+Qed.
+
 End Text.
 End WithNum.
